@@ -146,6 +146,10 @@ def scenario(rng, k, label):
         {"path": "cond-out/pk2/e.task.9", "kind": "dir", "files": {"w": "garbage in a package whose name extends `pk`"}},
         {"path": "cond-out/pk/gone.task.77", "kind": "dir", "files": {"w": "garbage used as a working directory"}},
         {"path": "cond-out/zzz.task.99", "kind": "dir", "files": {"w": "garbage that sorts after everything else"}}]})
+    # COND files that include() shared definitions, with the project-relative ("//...") and the file-relative spelling
+    proj["files"] = {"lib/vals.cond": "SHARED = 'x'\n", "pk/local.cond": "LOCAL = 'y'\n"}
+    proj["cond_prelude"] = {"": "include('//lib/vals.cond')\n", "pk": "include('//lib/vals.cond')\ninclude('local.cond')\n",
+                            "pk/sub": "include('../local.cond')\n"}
     scn = {"project": proj, "prefix": prefix, "cmd": (label, 0), "tag": [k, label]}
     if k % 2 == 1:
         proj["config"] = ""
